@@ -1391,6 +1391,98 @@ def part_lost_wakeup(cx: Ctx):
                 res.disagree("reply queued while the dispatcher goes idle vs Model.Txn", {"case": case, "line": line[:1000]}, ans[:400], want_m)
 
 
+# ---------------------------------------------------------------------------------------------- (viii) an undecodable frame / a failing handler in the middle
+def part_bad_frame_in_the_middle(cx: Ctx):
+    """a correctly framed but undecodable frame (reserved SType, unknown PType ...) or a `message_received` handler that raises sits in the
+    middle of the history.  Judged on the messages that FOLLOW: replies are still routed to their requesters, primaries are still handed
+    to the application exactly once in order, a later request still completes."""
+    res, rng = cx.res, cx.rng
+    bad_frames = {
+        "reserved SType 8": struct.pack(">LHBBBBL", 10, 0xFFFF, 0, 0, 0, 8, 4711),
+        "SType 200": struct.pack(">LHBBBBL", 10, 0xFFFF, 0, 0, 0, 200, 4712),
+        "length field below the header size": struct.pack(">L", 6) + b"\x00" * 6,
+    }
+    variants = list(bad_frames) + ["handler raises"]
+    for variant in (variants if cx.big else [variants[0], rng.choice(variants[1:3]), "handler raises"]):
+        rig = Rig(t3=1.2)
+        if not rig.connect():
+            return
+        c0 = rig.p._system_counter
+        boom = {"armed": variant == "handler raises"}
+
+        def raising(data, boom=boom):
+            if boom["armed"] and data["message"].header.system == 920001:
+                raise RuntimeError("application handler failed")
+
+        rig.p.events.message_received += raising
+        out = {}
+        t = threading.Thread(target=lambda: out.update(r=rig.p.send_and_waitfor_response(Fn(1, 1))), daemon=True)
+        t.start()
+        limit = time.time() + 2
+        while time.time() < limit and "sent" not in rig.tap.pc.values():
+            time.sleep(0.002)
+        wire = rig.c.data_systems()
+        if not wire:
+            res.violate("c06-request-hang", "request never reached the wire", {"part": "bad-frame"})
+            continue
+        k = wire[0][0]
+        rig.feed(data_msg(920001, 6, 11))  # before the disturbance
+        time.sleep(0.03)
+        if variant in bad_frames:
+            rig.c.on_data({"source": rig.c, "data": bad_frames[variant]})
+            time.sleep(0.05)
+        # what follows
+        rig.feed(data_msg(k, 1, 2))
+        rig.feed(data_msg(920002, 6, 13))
+        rig.feed(data_msg(920003, 6, 15))
+        t.join(2.5)
+        out2 = {}
+        n_before = len(rig.c.data_systems())
+
+        def later():
+            out2["r"] = rig.p.send_and_waitfor_response(Fn(1, 3))
+
+        t2 = threading.Thread(target=later, daemon=True)
+        t2.start()
+        limit = time.time() + 1.0
+        while time.time() < limit and len(rig.c.data_systems()) <= n_before:
+            time.sleep(0.003)
+        wire2 = rig.c.data_systems()
+        if len(wire2) > n_before:
+            rig.feed(data_msg(wire2[-1][0], 1, 4))
+        t2.join(2.5)
+        rig.quiesce(limit=1.0)
+        with rig.ev_lock:
+            starts = [(s_, tg) for (kk, s_, tg) in rig.events if kk == "start" and s_ >= 920000]
+        r, r2 = out.get("r"), out2.get("r")
+        alive = rig.p._thread._receiver_thread.is_alive() if rig.p._thread._receiver_thread is not None else False
+        case = {"part": "bad-frame", "variant": variant, "receiver_thread_alive": alive}
+        res.count(("bad-frame", variant), sample=dict(case, first_request=show_result(r), later_request=show_result(r2), application_got=starts))
+        res.bump("disturbance_in_the_middle_of_the_history", variant)
+        want = [(920001, 6 * 256 + 11), (920002, 6 * 256 + 13), (920003, 6 * 256 + 15)]
+        problems = []
+        if r is None or r.header.system != k or r.header.function != 2:
+            problems.append("the reply that followed was not routed to its requester (got " + show_result(r) + ")")
+        if starts != want:
+            problems.append("primaries that followed were not handed to the application exactly once, in order")
+        if t2.is_alive():
+            problems.append("a later send_and_waitfor_response blocked")
+        elif r2 is None or r2.header.function != 4:
+            problems.append("a later request did not get its reply (got " + show_result(r2) + ")")
+        if problems:
+            res.violate("c06-after-bad-frame", f"after {variant}: " + "; ".join(problems), case,
+                        {"requests": ["S1F2", "S1F4"], "application": want}, {"requests": [show_result(r), show_result(r2)], "application": starts})
+        toks, err = rig.tap.tokens(cx.atomic)
+        if cx.drv.available and toks is not None and not t2.is_alive() and not t.is_alive():
+            line, ans = model_run(cx.drv, cx.atomic, cx.patched, c0, max(rig.tap.n_callers, 1), toks)
+            res.traces_validated += 1
+            m = parse_model(ans)
+            want_m = [show_result(r), show_result(r2)], [f"{a_}:{b_}" for (a_, b_) in starts]
+            got_m = None if m is None else ([c_[2] for c_ in m["callers"][:2]], [x for x in m["delivered"] if int(x.split(":")[0]) >= 920000])
+            if got_m != (want_m[0], want_m[1]):
+                res.disagree("history with a disturbance in the middle vs Model.Txn", {"case": case, "line": line[:1000]}, ans[:400], list(want_m))
+
+
 # ---------------------------------------------------------------------------------------------- static tie: the SECS-I routing branch
 def part_static_tie(cx: Ctx):
     """the harness drives HSMS; the SECS-I endpoint shares Protocol.send_and_waitfor_response and has its own copy of the routing branch:
@@ -1488,6 +1580,8 @@ def main():
             part_link_loss_in_progress(cx)
         if want("lost-wakeup"):
             part_lost_wakeup(cx)
+        if want("bad-frame"):
+            part_bad_frame_in_the_middle(cx)
         if replay_classes:
             res.violations = [v for v in res.violations if v["class"] in replay_classes]  # "does the recorded failure still fail"
     except Exception as exc:  # noqa: BLE001
